@@ -656,8 +656,9 @@ fn run_big_query(searcher: &Searcher, body: Field, vocab: &[String], q: &Value, 
     for (i, (seg, doc, score)) in all.iter().enumerate() {
         let id = ids[*seg as usize][*doc as usize];
         let near = *doc % 4096 <= 2 || *doc % 4096 >= 4093;
-        let pick = i < 3 || i + 3 >= n_all || near || in_top10.contains(&(*seg, *doc)) || (id.wrapping_mul(2654435761) >> 7) % 401 == 0;
-        if !pick || hits.len() >= 120 && !in_top10.contains(&(*seg, *doc)) {
+        // few matches (a sparse required term): every one of them is observed
+        let pick = n_all <= 160 || i < 3 || i + 3 >= n_all || near || in_top10.contains(&(*seg, *doc)) || (id.wrapping_mul(2654435761) >> 7) % 401 == 0;
+        if !pick || hits.len() >= 200 && !in_top10.contains(&(*seg, *doc)) {
             continue;
         }
         stage("observe");
